@@ -13,7 +13,8 @@ import os
 from vf import textgen
 
 BASE = frozenset(
-    "list olist quote atx emph code hr task listpad lazy blanklines tightjoin spaces strike alert cjk escape entity fenced".split()
+    "list olist quote atx emph code hr task listpad lazy blanklines tightjoin spaces strike alert cjk escape entity fenced "
+    "setext reflink fnref tagline hardbreak link".split()
 )
 
 ENABLED: dict[str, frozenset] = {
